@@ -100,16 +100,20 @@ fn decode_inner(buf: &mut BytesMut) -> Result<Option<(RequestId, (Tag, Vec<Contr
         Some(controls) => parse_controls(controls),
         None => vec![],
     };
-    let msgid = match parse_uint(
-        tags.pop()
-            .expect("element")
-            .match_class(TagClass::Universal)
-            .and_then(|t| t.match_id(Types::Integer as u64))
-            .and_then(|t| t.expect_primitive())
-            .expect("message id")
-            .as_slice(),
-    ) {
-        Ok((_, id)) => id as i32,
+    let msgid_octets = tags
+        .pop()
+        .expect("element")
+        .match_class(TagClass::Universal)
+        .and_then(|t| t.match_id(Types::Integer as u64))
+        .and_then(|t| t.expect_primitive())
+        .expect("message id");
+    // MessageID ::= INTEGER (0 .. maxInt): reject negative or oversized values instead of
+    // truncating them to an ID which could belong to another operation.
+    if msgid_octets.is_empty() || msgid_octets[0] & 0x80 != 0 || msgid_octets.len() > 8 {
+        return Err(decoding_error);
+    }
+    let msgid = match parse_uint(msgid_octets.as_slice()) {
+        Ok((_, id)) if id <= i32::MAX as u64 => id as i32,
         _ => return Err(decoding_error),
     };
     Ok(Some((msgid, (Tag::StructureTag(protoop), controls))))
